@@ -53,9 +53,12 @@ func gen(r *rand.Rand) WL {
 		if x == 0 {
 			n = 65536 + 1 + r.IntN(40)
 		}
+		if x == 1 {
+			n = 100000 + 1 + r.IntN(40) // more entities than any default page, shard or batch size
+		}
 		w.DB = stor.GenWide(r, n)
 		w.Opts = stor.GenOpts(r, n)
-		w.Opts.Shard, w.Opts.Batch = []int{n/3 + 1, n + 1, 1000}[r.IntN(3)], []int{n/2 + 1, n + 1, 1000}[r.IntN(3)]
+		w.Opts.Shard, w.Opts.Batch = []int{n/3 + 1, n + 1, 1000}[r.IntN(3)], []int{n/2 + 1, n + 1, n + 50000, 1000}[r.IntN(4)]
 		w.Path, w.LoadBatch = "dir", []int{1000, n + 1}[r.IntN(2)]
 		w.Edit = []string{"delnode", "addedge", "kind", "rewire", "none"}[r.IntN(5)]
 		return w
@@ -232,6 +235,9 @@ func exec(t *testing.T, w WL, cfg simrt.Config) simh.Outcome {
 		}
 		if len(g.Nodes) > 65536 {
 			o.Counters["graphs_with_over_65536_kind_combinations"]++
+		}
+		if len(g.Nodes) > 100000 {
+			o.Counters["graphs_with_over_100000_nodes"]++
 		}
 	}
 	if d := metricsDescribe(m, w.DB); d != "" {
